@@ -9,8 +9,8 @@ LEAN_MODULES = ["Econf.Props.C06"]
 THEOREMS = ["Econf.C06_file", "Econf.readSeq_spec", "Econf.readFirst_spec", "Econf.C06_history_trace", "Econf.C06_no_config",
             "Econf.C06_no_config_dirs", "Econf.C06_no_history"]
 SHRINK = False
-RULE = ("trees of C01 x callback policies (accept all, reject the k-th call for k = 0..n, reject by path suffix: the main file, a drop-in, "
-        "a masked drop-in) x the four callback entry points (single file, layered read, two-directory read, history); the logged "
+RULE = ("trees of C01 x callback policies (accept all, accept all after reading a policy file through the library inside the callback, "
+        "reject the k-th call for k = 0..n, reject by path suffix: the main file, a drop-in, a masked drop-in) x the four callback entry points (single file, layered read, two-directory read, history); the logged "
         "callback calls and file opens and the result are compared with the consulted list computed from the tree; "
         "non-trivial = at least one callback call; distinct by scenario text")
 
@@ -33,7 +33,7 @@ def make(rng, sid):
         return s
     p = gen_tree.shape_params(rng, shape)
     tg = gen_tree.Tagger()
-    t = gen_tree.random_tree(rng, p["dirs"], p["name"], p["dsfx"], p["postfixes"], tg)
+    t = gen_tree.random_tree(rng, p["dirs"], p["name"], p["dsfx"], p["postfixes"], tg, decoys=p["decoys"])
     relative = False
     if shape == "readdirs" and rng.random() < 0.4 and all(d.startswith(b"/") and len(d) > 1 for d in p["dirs"]):
         # relative directory arguments (after chdir to /): the callback is shown the consulted names as built from them
@@ -45,7 +45,12 @@ def make(rng, sid):
     main, drops = trees.consulted(tv, p["dirs"], p["name"], p["dsfx"], p["postfixes"])
     files = ([main] if main else []) + drops
     r = rng.random()
-    if r < 0.25 or not files:
+    nested = None
+    if r < 0.12 and files:
+        # the callback loads a policy file of its own through the library while it is being asked, and accepts
+        nested = b"/policy/allow.conf"
+        pol = "cb:nest:" + h(nested)
+    elif r < 0.25 or not files:
         pol = "cb:all"
     elif r < 0.6:
         pol = "cb:rej:%d" % rng.randint(0, len(files))
@@ -57,6 +62,8 @@ def make(rng, sid):
         entry = "RH"
     s = Scenario(sid, {"p": p, "tree": t, "policy": pol, "consulted": files, "entry": entry or p["call"][0], "shape": shape})
     t.emit(s)
+    if nested:
+        s.file(nested, b"allow=yes\nleaked_from_policy=1\n[A]\nk=policy\n")
     if relative:
         s.add("CD", h(b"/"))
         s.meta["relative"] = True
@@ -81,7 +88,7 @@ def scenarios(tier, rng):
 
 
 def rejected(policy, k, path):
-    if policy == "cb:all":
+    if policy == "cb:all" or policy.startswith("cb:nest:"):
         return False
     if policy.startswith("cb:rej:"):
         return k == int(policy[7:])
